@@ -23,7 +23,10 @@ var c16Signers = []string{"resolvable", "unknown", "wrong-signature"}
 var c16Paths = []string{"provision-crl_file", "provision-crl_url", "first-cdp-fetch-actively", "first-cdp-fetch-background", "periodic-refresh", "refresh-after-restart",
 	// a first run under signature_validation_mode none takes the configured CRL in; the process restarts on the same
 	// work_dir with the mode of the cell (the policy of the current configuration decides, not what the disk remembers)
-	"reprovision-crl_file-after-run-under-none", "reprovision-crl_url-after-run-under-none"}
+	"reprovision-crl_file-after-run-under-none", "reprovision-crl_url-after-run-under-none",
+	// the file named by trusted_signature_certs_files is replaced by another CA's certificate between two runs of the
+	// same process: the second run trusts what the file holds now
+	"reprovision-crl_url-after-trusted-cert-file-replaced"}
 
 type c16Cell struct {
 	Mode, Signer, Path string
@@ -141,6 +144,7 @@ func (c *c16Cast) runCell(cell c16Cell) (obs c16Obs, want []string) {
 		}
 		cdp := !strings.HasPrefix(cell.Path, "provision-") && !strings.HasPrefix(cell.Path, "reprovision-")
 		modeNow := cell.Mode
+		trustedNow := c.ca
 		mkCfg := func() *config.CRLConfig {
 			cfg := &config.CRLConfig{WorkDir: dir, StorageType: storage, SignatureValidationMode: modeNow, UpdateInterval: "30m",
 				CDPConfig: &config.CDPConfig{CRLCDPStrict: true}}
@@ -151,6 +155,9 @@ func (c *c16Cast) runCell(cell c16Cell) (obs c16Obs, want []string) {
 			case "reprovision-crl_url-after-run-under-none":
 				cfg.CRLUrls = []string{c16URL}
 				cfg.TrustedSignatureCertsFiles = []string{WritePEM(filesDir, "ca.pem", c.ca.Cert)}
+			case "reprovision-crl_url-after-trusted-cert-file-replaced":
+				cfg.CRLUrls = []string{c16URL}
+				cfg.TrustedSignatureCertsFiles = []string{WritePEM(filesDir, "ca.pem", trustedNow.Cert)}
 			case "provision-crl_file":
 				cfg.CRLFiles = []string{crlFile}
 				cfg.TrustedSignatureCertsFiles = []string{WritePEM(filesDir, "ca.pem", c.ca.Cert)}
@@ -192,6 +199,37 @@ func (c *c16Cast) runCell(cell c16Cell) (obs c16Obs, want []string) {
 		expect := func() { want = append(want, fmt.Sprintf("v%d", inForce)) }
 		look := func() { obs.Probes = append(obs.Probes, c.observe(w, cdp)) }
 		switch cell.Path {
+		case "reprovision-crl_url-after-trusted-cert-file-replaced":
+			if cell.Signer != "resolvable" {
+				want, obs.Probes = nil, nil // the other signer kinds are not resolvable before the replacement either
+				return
+			}
+			publish("resolvable", 1)
+			if err := start(); err != nil {
+				obs.ProvisionErr = "first run: " + err.Error()
+				want = append(want, "provision-must-succeed")
+				return
+			}
+			look()
+			inForce = 1
+			expect()
+			publish("resolvable", 2)
+			trustedNow = c.p.CARSA // the same file name now holds an unrelated CA: the CRL's signer is unknown to this run
+			if err := restart(); err != nil {
+				obs.ProvisionErr = err.Error()
+				if accept("unknown") {
+					want = append(want, "provision-must-succeed")
+				}
+				return
+			}
+			inForce = 0
+			if accept("unknown") {
+				inForce = 2
+			}
+			look()
+			expect()
+			w.Cleanup()
+			return
 		case "reprovision-crl_file-after-run-under-none", "reprovision-crl_url-after-run-under-none":
 			modeNow = "none"
 			publish(cell.Signer, 1)
